@@ -56,8 +56,11 @@ GraphSize(P, items) ==
   SumSeq([j \in DOMAIN items |->
             IF items[j].k = "set" THEN GraphSize(P, P.sets[items[j].i].items)
             ELSE LET l == P.leaves[items[j].i] IN 1 + Len(l.ins) + Len(l.sel) + Len(l.names)])
-\* iterations the cycle search / the planner may take: a constant times (nodes + edges) for each set level it looks at
-WorkBound(P) == 8 * (Len(P.sets) + Len(P.injs) + 1) * (1 + SumSeq([i \in DOMAIN P.injs |-> GraphSize(P, P.injs[i].items) + Len(P.injs[i].params)]))
+\* iterations the cycle search / the planner may take: quadratic in (nodes + edges) for each set level they look at - far below
+\* the number of paths of the scaling lattices (2^20, 2^40), far above any path-independent algorithm
+WorkBound(P) ==
+  LET sz == 1 + SumSeq([i \in DOMAIN P.injs |-> GraphSize(P, P.injs[i].items) + Len(P.injs[i].params)])
+  IN 8 * (Len(P.sets) + Len(P.injs) + 1) * sz * sz
 Case(P) == [key |-> P.key, fam |-> P.fam, prog |-> P,
             expect |-> [i \in DOMAIN P.injs |-> InjExpect(P, P.injs[i])],
             invalidsets |-> InvalidSets(P), workbound |-> WorkBound(P)]
